@@ -28,7 +28,7 @@ COMPONENTS = {"real": ["every line of librebound incl. server.c request loop and
 ASSUMPTIONS = ["sequentially consistent memory: races inside one basic block or due to hardware reordering are below the scheduler's resolution",
                "only well-formed requests are generated; arrival times are the quantified dimension",
                "the instrumented build (trace-pc, instrument-functions) may inline differently from the shipped one; bitwise oracles only compare runs of the same build"]
-PROBES = ["A_switches", "B_requests_served", "B_served_in_LAST_STEP", "B_served_after_loop", "B_served_while_paused", "B_mutex_contended", "B_arrival_in_sync_window", "A_archive_ops", "A_copy_ops"]
+PROBES = ["A_switches", "B_requests_served", "B_served_in_LAST_STEP", "B_served_after_loop", "B_served_while_paused", "B_mutex_contended", "B_arrival_in_sync_window", "A_archive_ops", "A_copy_ops", "stalled_thread"]
 
 A_INTEGS = ["ias15", "whfast", "saba", "eos", "leapfrog", "janus", "mercurius", "trace", "bs"]
 B_INTEGS = ["whfast", "whfast", "saba", "mercurius", "ias15", "leapfrog", "janus", "eos", "bs", "trace"]
@@ -38,6 +38,11 @@ def generate(rng, tier, index):
     part = "A" if index % 3 == 0 else "B"
     s = rng.derive("sched")
     sched = dict(seed=s.u64() % (1 << 62), policy=s.choice([0, 0, 1, 1]), p=s.choice([0.003, 0.02, 0.1, 0.3]), bias_p=s.choice([0.3, 0.6]))
+    st_ = rng.derive("stall")
+    if st_.chance(0.4):
+        # slow or stalled thread: parked for 2 ms .. 5 s of simulated time at a pre-emption point
+        sched["stall_p"] = st_.choice([1e-5, 1e-4])
+        sched["stall_us"] = st_.choice([2000, 600000, 5000000])
     if part == "A":
         sched["p"] = s.choice([0.001, 0.003, 0.02, 0.1])
         K = rng.derive("k").randint(2, 4)
@@ -180,8 +185,11 @@ def execute(case, ctx):
         rb.clock_set(step_us=0)
         progs2, keep2 = make("con")
         SL.begin(sc["seed"], sc["policy"], sc["p"], sc["bias_p"])
+        if sc.get("stall_p"):
+            SL.set_stall(sc["stall_p"], sc["stall_us"])
         arr2 = SL.run_workers(progs2, 1)
         st = SL.stats()
+        probe("stalled_thread", SL.stalls())
         SL.end()
         con = [([arr2[k].digests[i] for i in range(min(arr2[k].ndig, arr2[k].capdig))], arr2[k].error) for k in range(len(progs2))]
         probe("A_switches", st["switches"])
@@ -228,6 +236,8 @@ def execute(case, ctx):
         rb.hb_reset()
         rb.hb_attach(sim)
         SL.begin(sc["seed"], sc["policy"], sc["p"], sc["bias_p"], tick_cap=max(2000000, 400 * H))
+        if sc.get("stall_p"):
+            SL.set_stall(sc["stall_p"], sc["stall_us"])
         SL.L.verif_sched_watch(ctypes.addressof(sim))
         ids = []
         prev_tick = 0
@@ -247,6 +257,7 @@ def execute(case, ctx):
             sim.stop_server()
         finally:
             st = SL.stats()
+            probe("stalled_thread", SL.stalls())
             infos = [SL.client_info(i) for i in ids]
             bodies = [SL.read_response(inf["fd"]) if inf["delivered"] and inf["fd"] >= 0 else None for inf in infos]
             SL.end()
